@@ -20,6 +20,11 @@ CLAIMED = {
    "Every state reachable by <= n set/reference/dereference transactions over 2 keys (value a function of the key), any interleaving of pipeline-stage events and reopen, on a ref-counted column with hash and with btree index; oracle: count>0 => readable with its value at every state; at states with an empty commit queue and after reopen readable <=> count>0 and (hash index) value iteration = multiset of live (value,count).",
    "Bounds per scenario in the evidence. Known finding F-C07-iter-lag (iteration lags until records are enacted) is reported as KNOWN-FINDING; iteration mismatches at fully enacted states and after reopen are violations. Crash clause: C02/C12 image sets include this column kind (when built). Count saturation at u32::MAX is not driven (would need 2^32 operations or a crafted file).",
    "DESIGN.md §3 E1, §4 C07"),
+ "C08": ("seqmc", "model_checking",
+   "explicit-state breadth-first search over the real Db with every invalid transaction offered at every state; before/after state-digest and file-byte comparison for each rejected commit; reference model that never sees rejected transactions",
+   "Families of invalid transactions (one invalid operation inserted at every position of a valid multi-column transaction: reference without counting on hash and btree columns, tree operations on non-tree columns and vice versa, dereference of a missing or append-only tree, reference of a tree without counting, unrepresentable node with 256 children, commit in the background-error state) are submitted at every state of a surrounding history (accepted commits, all stage interleavings, reopen). Oracle: the call returns an error; the in-memory digest (commit overlay contents, queue, claimed slots/free lists, queued-dereference counters, log overlays) and every file byte are identical before and after the call; all later reads in all columns agree with the model.",
+   "Rejected commits may consume a commit id (not observable). Hash-map order pinned and varied over two seeds. Bounds per scenario in the evidence.",
+   "DESIGN.md §3 E1, §4 C08"),
 }
 
 NOT_YET = {}
